@@ -104,6 +104,11 @@ pub fn build(tier: Tier) -> Check<'static> {
         c.parts.push(Part::new("directive-bodies-table", sp.len(), "macros whose text holds `undef / `undefineall / `define / conditional chains: returned table", move |i, acc| pp::check_prog(acc, &sp.get(i), or, "directive bodies")));
     }
     {
+        let sp = pp::redefine_profile();
+        let or2 = Oracles { table: true, lexemes: true, ..Default::default() };
+        c.parts.push(Part::new("redefinitions-table", sp.len(), "every ordered pair of definitions of one name (8 formal lists x 2 texts; first one from the source or the caller) and a usage: returned table and tokens", move |i, acc| pp::check_prog(acc, &sp.get(i), or2, "redefinitions")));
+    }
+    {
         // defines flowing out of included files (real files): define / undef / guard / nested include
         crate::props::c10::enter_cwd("C11");
         let all = crate::props::c10::cases(tier);
